@@ -115,6 +115,11 @@ func ParseNum(s string, n *NumInfo) error {
 		n.next()
 		seenDecimalPoint = true
 	}
+	if n.ch < '0' || '9' < n.ch {
+		// As in the scanner, a number starts with a decimal digit,
+		// also after a sign or decimal point: "_1" is not a number.
+		return n.errorf("illegal number start %q", s)
+	}
 	err := n.scanNumber(seenDecimalPoint)
 	if err != nil {
 		return err
